@@ -834,6 +834,29 @@ def render (s : Tp.St) : _root_.String :=
     (if th.running then "1" else "0") ++ "/" ++ optJob th.cb ++ "/" ++ optJob th.res ++ "/" ++ (if th.rq then "1" else "0")) ++
   "] en=[" ++ csv (((allWho s).filter fun w => (step s (.run w)).isSome).map whoName) ++
   "] sl=[" ++ csv (((allWho s).filter (sleeping s)).map whoName) ++ "]"
+
+/-- delay-bounded systematic schedules of the machine (Emmi–Qadeer–Rakamarić): the base scheduler keeps running the current
+    thread while it is enabled and otherwise moves to the next enabled thread in the cyclic order caller, handler, workers;
+    a DELAY skips the thread that would run now.  All schedules with at most `delays` delays, as lists of thread names. -/
+partial def enumSched (s : Tp.St) (cur : Nat) (delays : Nat) (acc : List _root_.String) (fuel : Nat) (limit : Nat)
+    (out : Array (List _root_.String)) : Array (List _root_.String) :=
+  if out.size ≥ limit then out else
+  let ws := allWho s
+  let n := ws.length
+  -- enabled threads in cyclic order starting at `cur`
+  let order := (List.range n).map fun i => (cur + i) % n
+  let en := order.filter fun i => (turn s ws[i]!).isSome
+  match fuel, en with
+  | 0, _ => out.push acc.reverse
+  | _, [] => out.push acc.reverse
+  | fuel + 1, en =>
+    -- choice k (k-th enabled thread in the order) costs k delays
+    (List.range (min en.length (delays + 1))).foldl (fun out k =>
+      let i := en[k]!
+      match turn s ws[i]! with
+      | some s' => enumSched s' i (delays - k) (whoName ws[i]! :: acc) fuel limit out
+      | none => out) out
+
 end TpDrv
 
 def stepTp (s : St) (line : String) : Option (St × String) :=
@@ -842,6 +865,10 @@ def stepTp (s : St) (line : String) : Option (St × String) :=
     let m := Tp.init (kvNat args "max" 1) (kvNat args "jobs" 0) (kvNat args "ord" 1 == 1)
     let m := TpDrv.settle m .caller 2
     some ({ s with tp := some m }, TpDrv.render m)
+  | "tp.enum" :: args =>
+    let m := TpDrv.settle (Tp.init (kvNat args "max" 1) (kvNat args "jobs" 0) (kvNat args "ord" 1 == 1)) .caller 2
+    let scheds := TpDrv.enumSched m 0 (kvNat args "delays" 1) [] 400 (kvNat args "limit" 2000) #[]
+    some (s, "scheds " ++ ";".intercalate (scheds.toList.map fun l => ",".intercalate l))
   | ["tp.step", x] =>
     match s.tp with
     | none => none
